@@ -230,3 +230,25 @@ func reverseReturns(rev func()) string {
 		return hung
 	}
 }
+
+// permute calls f with every permutation of idx (Heap's algorithm; f must not keep the slice).
+func permute(idx []int, f func([]int)) {
+	var rec func(k int)
+	rec = func(k int) {
+		if k == 1 {
+			f(idx)
+			return
+		}
+		for i := 0; i < k; i++ {
+			rec(k - 1)
+			if k%2 == 0 {
+				idx[i], idx[k-1] = idx[k-1], idx[i]
+			} else {
+				idx[0], idx[k-1] = idx[k-1], idx[0]
+			}
+		}
+	}
+	if len(idx) > 0 {
+		rec(len(idx))
+	}
+}
